@@ -272,6 +272,9 @@ func (in *interp) visitInstr(fr *frame, instr ssa.Instruction) int {
 			if in.tryMerge(fr, cur, s0, s1, s) {
 				return kJump
 			}
+			if in.tryMergeReturns(fr, cur, s0, s1, s) {
+				return kReturn
+			}
 		}
 		if in.truth(c) {
 			fr.jump(s0)
